@@ -140,12 +140,16 @@ class Filter(object):
         cfg_cur = rtdc_ds.config["filtering"]
         cfg_old = self._old_config
 
-        # Determine which data was updated
-        for skey in list(cfg_cur.keys()):
-            if cfg_cur[skey] != cfg_old.get(skey, None):
+        # Determine which data was updated (this includes keys that
+        # were removed from the configuration since the last update,
+        # e.g. a box filter range that must not be applied anymore)
+        allkeys = list(cfg_cur.keys())
+        allkeys += [k for k in cfg_old.keys() if k not in cfg_cur]
+        for skey in allkeys:
+            if cfg_cur.get(skey, None) != cfg_old.get(skey, None):
                 newkeys.append(skey)
                 oldvals.append(cfg_old.get(skey, None))
-                newvals.append(cfg_cur[skey])
+                newvals.append(cfg_cur.get(skey, None))
 
         # 1. Invalid filters
         arr_invalid = self._get_rw_array("invalid")
